@@ -171,6 +171,12 @@ func guard(name string, panicOut *string, f func() error) func() error {
 // lay.Dst. It runs the scenario's session inside a fresh synctest bubble under
 // the deterministic scheduler and returns what happened.
 func RunSyncSession(t *testing.T, sc *SyncScenario, lay Layout, hooks SessionHooks) (res *SessionResult) {
+	return RunSyncSessionWithModules(t, sc, lay, hooks, nil)
+}
+
+// RunSyncSessionWithModules is RunSyncSession with an explicit module list for
+// the daemon arrangements (fault-planned fs.FS modules, several modules).
+func RunSyncSessionWithModules(t *testing.T, sc *SyncScenario, lay Layout, hooks SessionHooks, mods []rsyncd.Module) (res *SessionResult) {
 	res = &SessionResult{}
 	defer func() {
 		if r := recover(); r != nil {
@@ -180,7 +186,7 @@ func RunSyncSession(t *testing.T, sc *SyncScenario, lay Layout, hooks SessionHoo
 		}
 	}()
 	synctest.Test(t, func(t *testing.T) {
-		runSyncInBubble(sc, lay, hooks, res)
+		runSyncInBubble(sc, lay, hooks, res, mods)
 	})
 	return res
 }
@@ -210,7 +216,7 @@ func applyFaults(faults []Fault, cEnd, sEnd *kernel.End, client, server *kernel.
 	}
 }
 
-func runSyncInBubble(sc *SyncScenario, lay Layout, hooks SessionHooks, res *SessionResult) {
+func runSyncInBubble(sc *SyncScenario, lay Layout, hooks SessionHooks, res *SessionResult, mods []rsyncd.Module) {
 	sim := sc.Tr.NewSim()
 	sim.OnStep = hooks.OnStep
 	ctx, cancel := context.WithCancel(context.Background())
@@ -309,6 +315,9 @@ func runSyncInBubble(sc *SyncScenario, lay Layout, hooks SessionHooks, res *Sess
 		case "A2":
 			modules = []rsyncd.Module{{Name: "mod", Path: lay.Dst, Writable: true}}
 		}
+	}
+	if mods != nil {
+		modules = mods
 	}
 	srv, err := rsyncd.NewServer(modules, rsyncd.WithStderr(sErr), rsyncd.DontRestrict())
 	if err != nil {
